@@ -79,8 +79,12 @@ class ClientConnectionJob(object):
     def denyConnection(self, reason):
         log.warning("client connection was denied: " + reason)
         # return failed handshake
-        self.daemon._handshake(self.csock, denied_reason=reason)
-        self.csock.close()
+        try:
+            self.daemon._handshake(self.csock, denied_reason=reason)
+        except Exception as x:
+            log.warning("error while denying connection: %s", x)
+        finally:
+            self.csock.close()
 
 
 class Housekeeper(threading.Thread):
